@@ -16,7 +16,7 @@ def main(tier, seed, prop=PROP):
     if "LABELS_ALLOW_UNDERSCORE" not in stock:
         variants.append(("asan-underscore", cx.exe("asan-underscore", defs=["LABELS_ALLOW_UNDERSCORE"]), True))
     rng = random.Random(seed)
-    k = 6 if tier == "quick" else 8
+    k = 7 if tier == "quick" else 9
     pre = 2 if tier == "quick" else 3
     pool_len = DG.host_pool_len()
     pool_bytes = DG.host_pool_bytes()
